@@ -329,7 +329,7 @@ def _describe_allowed_present_keys(
     g = ['"{}"'.format(g) for g in got]
     sug_msg += ', but'
     if missing:
-        if set(got).issubset({n for n, _, _ in all_keys}):
+        if all(g in [n for n, _, _ in all_keys] for g in got):
             sug_msg += ' only'
     sug_msg += ' {}'.format(cjoin('and', g))
     sug_msg += ' were given.' if len(got) > 1 else ' was given.'
